@@ -40,12 +40,9 @@ Proof. reflexivity. Qed.
 Lemma tie_c04_sendreply_text : f_c04_sendreply_text =
   "func (c *channel) SendReply(msg *net.Message, response []byte) error { hdr := msg.Header hdr.Type = net.Reply reply := net.NewMessage(hdr, response) return c.Send(&reply) }".
 Proof. reflexivity. Qed.
-(* pinned text (answers a Post: finding post_answered) or the text repaired by 2cdd6aa (a Post is dropped) *)
 Lemma tie_c04_senderror_text : f_c04_senderror_text =
-  "func (c *channel) SendError(msg *net.Message, err error) error { hdr := net.NewHeader(net.Error, msg.Header.Service, msg.Header.Object, msg.Header.Action, msg.Header.ID) mError := net.NewMessage(hdr, errorPaylad(err)) return c.Send(&mError) }"
-  \/ f_c04_senderror_text =
-  "func (c *channel) SendError(msg *net.Message, err error) error { if msg.Header.Type == net.Post { return nil } hdr := net.NewHeader(net.Error, msg.Header.Service, msg.Header.Object, msg.Header.Action, msg.Header.ID) mError := net.NewMessage(hdr, errorPaylad(err)) return c.Send(&mError) }".
-Proof. first [left; reflexivity | right; reflexivity]. Qed.
+  "func (c *channel) SendError(msg *net.Message, err error) error { hdr := net.NewHeader(net.Error, msg.Header.Service, msg.Header.Object, msg.Header.Action, msg.Header.ID) mError := net.NewMessage(hdr, errorPaylad(err)) return c.Send(&mError) }".
+Proof. reflexivity. Qed.
 Lemma tie_c04_router_receive_text : f_c04_router_receive_text =
   "func (r *Router) Receive(m *net.Message, from Channel) error { r.RLock() s, ok := r.services[m.Header.Service] r.RUnlock() if ok { return s.Receive(m, from) } return from.SendError(m, ErrServiceNotFound) }".
 Proof. reflexivity. Qed.
